@@ -31,15 +31,21 @@ Definition forges : list forge :=
   flat_map (fun i => flat_map (fun c => map (mkForge i c) fsigs) claims) bools.
 
 Definition honest_scenarios : list scenario :=
-  flat_map (fun si => flat_map (fun sr => map (fun e => mkSc si sr e None) all_edits) (hsides KB)) (hsides KA).
+  flat_map (fun si => flat_map (fun sr => map (fun e => mkSc si sr e None None) all_edits) (hsides KB)) (hsides KA).
 
 Definition forged_scenarios : list scenario :=
   flat_map (fun f =>
     if f_init f
-    then flat_map (fun si => map (fun sr => mkSc si sr ENone (Some f)) (hsides KB)) fsides
-    else flat_map (fun si => map (fun sr => mkSc si sr ENone (Some f)) fsides) (hsides KA)) forges.
+    then flat_map (fun si => map (fun sr => mkSc si sr ENone (Some f) None) (hsides KB)) fsides
+    else flat_map (fun si => map (fun sr => mkSc si sr ENone (Some f) None) fsides) (hsides KA)) forges.
 
-Definition all_scenarios : list scenario := honest_scenarios ++ forged_scenarios.
+(* a panic at any stage of either endpoint's runHandshake *)
+Definition all_stages : list fstage := [FWrite 0; FWrite 1; FRead 0; FRead 1; FSend; FReceived].
+Definition all_faults : list fault := flat_map (fun i => map (mkFault i) all_stages) bools.
+Definition fault_scenarios : list scenario :=
+  flat_map (fun f => flat_map (fun si => map (fun sr => mkSc si sr ENone None (Some f)) (hsides KB)) (hsides KA)) all_faults.
+
+Definition all_scenarios : list scenario := honest_scenarios ++ forged_scenarios ++ fault_scenarios.
 
 Ltac in_list := solve [repeat (first [left; reflexivity | right])].
 
@@ -68,22 +74,40 @@ Proof.
     cbn in H; try discriminate H; cbn; in_list.
 Qed.
 
+Lemma wf_fault_in : forall sc f, wf_fault sc f = true -> In f all_faults.
+Proof.
+  intros sc [i st] H. unfold wf_fault in H. apply andb_true_iff in H. destruct H as [_ H].
+  cbn [ft_stage] in H.
+  destruct i; destruct st as [k|k| |]; try (destruct k as [|[|k]]; cbn in H; try discriminate H); cbn; in_list.
+Qed.
+
 Lemma all_scenarios_complete : forall sc, wf_scenario sc = true -> In sc all_scenarios.
 Proof.
-  intros [si sr e f] H. unfold wf_scenario in H. cbn [sc_forge sc_i sc_r sc_edit] in H.
-  unfold all_scenarios. apply in_or_app. destruct f as [f|].
-  - right. apply andb_true_iff in H. destruct H as [H Hs]. apply andb_true_iff in H. destruct H as [He Hf].
-    destruct e; try discriminate He.
+  intros [si sr e f ft] H. unfold wf_scenario in H. cbn [sc_forge sc_i sc_r sc_edit sc_fault] in H.
+  unfold all_scenarios. destruct f as [f|].
+  - apply in_or_app. right. apply in_or_app. left.
+    apply andb_true_iff in H. destruct H as [H Hs]. apply andb_true_iff in H. destruct H as [H Hft].
+    apply andb_true_iff in H. destruct H as [He Hf].
+    destruct e; try discriminate He. destruct ft; [discriminate Hft|].
     unfold forged_scenarios. apply in_flat_map. exists f. split; [apply wf_forge_in, Hf|].
     destruct (f_init f); apply andb_true_iff in Hs; destruct Hs as [H1 H2].
     + apply in_flat_map. exists si. split; [apply forger_side_in, H1|].
       apply in_map_iff. exists sr. split; [reflexivity | apply wf_side_in, H2].
     + apply in_flat_map. exists si. split; [apply wf_side_in, H1|].
       apply in_map_iff. exists sr. split; [reflexivity | apply forger_side_in, H2].
-  - left. apply andb_true_iff in H. destruct H as [H He]. apply andb_true_iff in H. destruct H as [H1 H2].
-    unfold honest_scenarios. apply in_flat_map. exists si. split; [apply wf_side_in, H1|].
-    apply in_flat_map. exists sr. split; [apply wf_side_in, H2|].
-    apply in_map_iff. exists e. split; [reflexivity | apply wf_edit_in, He].
+  - apply andb_true_iff in H. destruct H as [H Hft]. apply andb_true_iff in H. destruct H as [H He].
+    apply andb_true_iff in H. destruct H as [H1 H2]. destruct ft as [ft|].
+    + apply in_or_app. right. apply in_or_app. right.
+      assert (Ee : e = ENone).
+      { unfold wf_fault in Hft. apply andb_true_iff in Hft. destruct Hft as [Hft _].
+        cbn [sc_edit] in Hft. destruct e; try discriminate Hft. reflexivity. }
+      subst e. unfold fault_scenarios. apply in_flat_map. exists ft. split; [eapply wf_fault_in, Hft|].
+      apply in_flat_map. exists si. split; [apply wf_side_in, H1|].
+      apply in_map_iff. exists sr. split; [reflexivity | apply wf_side_in, H2].
+    + apply in_or_app. left.
+      unfold honest_scenarios. apply in_flat_map. exists si. split; [apply wf_side_in, H1|].
+      apply in_flat_map. exists sr. split; [apply wf_side_in, H2|].
+      apply in_map_iff. exists e. split; [reflexivity | apply wf_edit_in, He].
 Qed.
 
 (* ---- boolean checks evaluated on every scenario ---------------------------------------------- *)
@@ -115,14 +139,14 @@ Definition admits (initiator : bool) (sd : side) (k : idk) : bool :=
 (* undisturbed honest runs: who completes is exactly determined by the
    prologues and the expected-peer settings *)
 Definition undisturbed_b (sc : scenario) : bool :=
-  match sc_forge sc, sc_edit sc with
-  | None, ENone =>
+  match sc_forge sc, sc_edit sc, sc_fault sc with
+  | None, ENone, None =>
       let '(rI, rR) := fst (run_scenario sc) in
       let p := prol_eqb (sd_prologue (sc_i sc)) (sd_prologue (sc_r sc)) in
       let aI := admits true (sc_i sc) KB in
       let aR := admits false (sc_r sc) KA in
       Bool.eqb (negb (failed rI)) (p && aI) && Bool.eqb (negb (failed rR)) (p && aI && aR)
-  | _, _ => true
+  | _, _, _ => true
   end.
 
 (* different prologues: nobody completes, whatever else happens *)
